@@ -221,7 +221,7 @@ def judge_c05(ctx, idx, op, impl, mi, ms, reason):
         ctx.count("senc_" + impl.split(" ")[0])
         if mi == "err -" and impl != "err -":
             f.append(Finding("property", idx, "octets of a message that cannot be represented on the wire reached the stream (or the call reported success)", expected="err -", observed=impl[:200], name="C05_codec_nothing_written"))
-        elif mi.startswith("ok ") and impl.startswith("ok") and impl != "ok " + ms:
+        elif impl.startswith("ok") and impl != "ok " + ms:
             f.append(Finding("property", idx, "the stream codec reported success but the stream did not receive exactly the message's frame", expected="ok " + ms[:120], observed=impl[:200], name="C05_ok_is_complete"))
     else:
         ctx.count("op_" + op[0] + "_" + impl.split(" ")[0])
@@ -319,7 +319,7 @@ def judge_c08(ctx, idx, op, impl, mi, ms, reason):
     al = [int(x) for x in lab.get("anslens", "").split(",") if x]
     n = len(rl)
     bad = None
-    kind = (ctx.case_label or "").split(" ")[3] if ctx.case_label else ""
+    is_good = False
     if end != "done":
         bad = "the connection's task did not end properly: end=%s" % end
     elif "herr" in lab:
@@ -366,6 +366,7 @@ def judge_c08(ctx, idx, op, impl, mi, ms, reason):
         if len(calls) != want_calls or wlen != want_w:
             bad = "write failure at offset %d: %d handler calls, %d octets written (expected %d calls, %d octets)" % (q, len(calls), wlen, want_calls, want_w)
     else:
+        is_good = True
         ctx.count("serve_good")
         if len(calls) != n or wlen != sum(al):
             bad = "%d requests: %d handler calls, %d octets written (expected %d)" % (n, len(calls), wlen, sum(al))
@@ -377,8 +378,15 @@ def judge_c08(ctx, idx, op, impl, mi, ms, reason):
                 ctx.baselines[key] = (calls, wr)
             elif base != (calls, wr):
                 bad = "handler calls or octets written depend on segmentation / Pending placement"
+    # whatever was written must be (a prefix of) the handler's answers as RFC 6733 encodes them - the spec column
+    spec = "" if ms in ("-", "") else ms
+    got = "" if wr in ("-", "") else wr
+    if not bad and not spec.startswith(got):
+        bad = "the octets written are not (a prefix of) the handler's answers, unmodified and in order"
+    elif not bad and is_good and got != spec:
+        bad = "the octets written are not exactly the handler's answers"
     if bad:
-        f.append(Finding("property", idx, bad, expected=mi[-200:], observed=impl[-200:], name="C08_all_good" if ctx.prop == "C08" else "C09_read_cut"))
+        f.append(Finding("property", idx, bad, expected=(spec[:200] if "octets written are not" in bad else mi[-200:]), observed=(got[:200] if "octets written are not" in bad else impl[-200:]), name="C08_all_good" if ctx.prop == "C08" else "C09_read_cut"))
     return f
 
 
